@@ -308,6 +308,18 @@ func runC18(c *core.Ctx, ck *Check) {
 			} else {
 				rs = gen.RangeOne(e.Name, r)
 			}
+			var symProbe string
+			if k >= len(fixedR) && k%3 == 2 {
+				// operator / marker literals of the ecosystem's own sources around a pool member cut to a shorter precision
+				// (prefix and wildcard forms); the uncut member is one of the probes
+				symProbe = p.Strs[r.IntN(len(p.Strs))]
+				rs = gen.SymRange(e.Name, r, func() string {
+					if i := strings.LastIndexAny(symProbe, ".-_"); i > 0 && r.IntN(3) > 0 {
+						return symProbe[:i]
+					}
+					return symProbe
+				})
+			}
 			if r.IntN(12) == 0 {
 				rs = gen.Hostile(rs, r)
 			}
@@ -324,6 +336,9 @@ func runC18(c *core.Ctx, ck *Check) {
 			// probes: pool members and every version-like token of the range text itself (probes that sit
 			// exactly on a bound, textually: identity operators and equality paths)
 			probes := []string{}
+			if symProbe != "" {
+				probes = append(probes, symProbe)
+			}
 			for x := 0; x < 6; x++ {
 				probes = append(probes, p.Strs[r.IntN(len(p.Strs))])
 			}
